@@ -379,6 +379,55 @@ pub fn run(tier: Tier) -> i32 {
             }
         }
     }
+    // larger clusters (more than four replicas to wait for; added after the seeded change
+    // C06-e): up to `max_faulty` of the other nodes do not acknowledge
+    let big: Vec<(Vec<usize>, usize)> = if tier.is_thorough() {
+        vec![(vec![6], 2), (vec![3, 4], 2), (vec![3, 3, 3], 2), (vec![8], 1)]
+    } else {
+        vec![(vec![6], 2), (vec![3, 4], 1)]
+    };
+    for (sizes, max_faulty) in big {
+        let mut layout: Vec<(NodeId, String)> = Vec::new();
+        let mut id = 1u8;
+        for (d, n) in sizes.iter().enumerate() {
+            for _ in 0..*n {
+                layout.push((id, format!("dc{d}")));
+                id += 1;
+            }
+        }
+        let issuers: Vec<NodeId> = vec![layout[0].0, layout[layout.len() - 1].0];
+        for issuer in issuers {
+            let others: Vec<NodeId> = layout.iter().map(|(n, _)| *n).filter(|n| *n != issuer).collect();
+            // every set of at most max_faulty non-acknowledging nodes x {request lost, storage failure}
+            let mut assignments: Vec<BTreeMap<NodeId, Peer>> = vec![others.iter().map(|n| (*n, Peer::Ack)).collect()];
+            for _ in 0..max_faulty {
+                let mut next = Vec::new();
+                for a in &assignments {
+                    let first_free = a.iter().rev().take_while(|(_, p)| **p == Peer::Ack).count();
+                    for n in others.iter().skip(others.len() - first_free) {
+                        for f in [Peer::DropRequest, Peer::StorageFails] {
+                            let mut b = a.clone();
+                            b.insert(*n, f);
+                            next.push(b);
+                        }
+                    }
+                }
+                assignments.extend(next.clone());
+                if next.is_empty() {
+                    break;
+                }
+            }
+            assignments.sort_by_key(|a| format!("{a:?}"));
+            assignments.dedup();
+            for peers in assignments {
+                for level in [Consistency::All, Consistency::Quorum, Consistency::EachQuorum, Consistency::LocalQuorum, Consistency::Three] {
+                    for kind in &kinds {
+                        scenarios.push(Scenario { layout: layout.clone(), issuer, level, kind: *kind, pre_advance: None, peers: peers.clone() });
+                    }
+                }
+            }
+        }
+    }
     let parts = par::par_map(&scenarios, |_, sc| {
         let mut st = Stats::default();
         let out = vkit::e2::block_on_fresh(execute(sc));
